@@ -1038,7 +1038,7 @@ def fmt_template(bs):
             if idx is None:
                 idx = nxt
             nxt = idx + 1
-            out.append(("arg", idx, flags))
+            out.append(("arg", idx, flags, n & 6))
     return out
 
 
